@@ -432,4 +432,26 @@ theorem fwdJ1_backward_adjoint (s : R) (h0 h1 : List R) (hh0 : h0.length % 2 = 1
   ring
 
 
+
+/-- **`INV_J1.backward` is the adjoint of `inv_j1`** (both inputs requiring grad): it runs `fwd_j1` with the
+synthesis filters, and `⟨inv_j1(ll, highs), dy⟩ = ⟨(ll, highs), fwd_j1_g(dy)⟩` is `fwdJ1_backward_adjoint` read
+from right to left with the (symmetric, odd-length) synthesis filters in place of the analysis filters. -/
+theorem INV_J1_backward_adjoint (s : R) (g0 g1 : List R) (hg0 : g0.length % 2 = 1) (hg1 : g1.length % 2 = 1)
+    (hs0 : Symm g0) (hs1 : Symm g1) (dy ll : Img R) (H W : Nat) (hH : 1 ≤ H) (hW : 1 ≤ W)
+    (hdy : Rect dy (2*H) (2*W)) (hll : Rect ll (2*H) (2*W)) (a b : Nat → Nat → Nat → R) :
+    let highs : List (Cplx R) := (List.range 6).map fun k => (tab2 H W (a k), tab2 H W (b k))
+    let B := INV_J1_backward s true (prepFilt g0) (prepFilt g1) true true dy
+    ∃ dl dh y, B = (some dl, some dh) ∧ invJ1 s true (prepFilt g0) (prepFilt g1) (H, W) (some ll) (some highs) = some y ∧
+      dot2 (2*H) (2*W) dy y
+        = dot2 (2*H) (2*W) dl ll
+          + ∑ k ∈ range 6, (dot2 H W (dh.getD k ([], [])).1 (highs.getD k ([], [])).1
+                            + dot2 H W (dh.getD k ([], [])).2 (highs.getD k ([], [])).2) := by
+  intro highs B
+  obtain ⟨hs, y, h1, h2, h3⟩ := fwdJ1_backward_adjoint s g0 g1 hg0 hg1 hs0 hs1 dy ll H W hH hW hdy hll a b
+  refine ⟨(fwdJ1 s true (prepFilt g0) (prepFilt g1) false dy).1, hs, y, ?_, ?_, h3.symm⟩
+  · show INV_J1_backward s true (prepFilt g0) (prepFilt g1) true true dy = _
+    unfold INV_J1_backward
+    simp [h1]
+  · exact h2
+
 end WV.C06
